@@ -106,17 +106,84 @@ def check_roots(ctx, rule, fid, what, where, roots, allowed, required=(), forbid
     return ok
 
 
+def seed_wrapper(facts, callee):
+    """an in-crate function whose only job is to build and return a seeded generator: straight-line body (no loop, no
+    branch), exactly one seeding call, and that call (or the immutable local holding it) is the value returned.
+    Returns (wrapper fn, inner seeding call) or None."""
+    w = facts.fns.get(callee or "")
+    if w is None or "hir" not in w:
+        return None
+    if "_wrapper" in w:
+        return w["_wrapper"]
+    res = None
+    sites = seed_sites(w)
+    body = w["hir"]
+    if len(sites) == 1 and body["k"] == "Block" and "expr" in body and \
+            not any(x["k"] in ("Loop", "If", "Match", "Closure", "Ret", "Assign", "AssignOp") for x in hirq.walk(body)):
+        tail = nf.strip(body["expr"])
+        if tail["k"] == "Path" and "local" in tail["res"]:
+            d = resolver_of(w).lookup(tail["res"]["local"])
+            tail = nf.strip(d) if d is not None else tail
+        if tail is sites[0]:
+            res = (w, sites[0])
+    w["_wrapper"] = res
+    return res
+
+
+def _wrapper_roots(facts, fn, call, wrapper, ai):
+    """roots of the wrapper's inner seed argument, expressed in the caller: the wrapper's parameters are replaced by the
+    roots of the caller's arguments; fields of self stay (the receiver must be self)"""
+    (w, inner) = wrapper
+    wsl = slicer_of(w, control=True)
+    sl = slicer_of(fn, control=True)
+    if call["k"] == "MethodCall":
+        actual = [call["recv"]] + list(call["args"])
+    else:
+        actual = list(call["args"])
+    out = set()
+    for r in wsl.roots(inner["args"][ai]):
+        if r[0] == "param":
+            m = re.match(r"#(\d+):", r[1])
+            i = int(m.group(1)) if m else None
+            if i is None or i >= len(actual):
+                out.add(("src", "unresolved wrapper parameter " + r[1]))
+            else:
+                out |= set(sl.roots(actual[i]))
+        elif r[0] in ("self", "len") and not (call["k"] == "MethodCall" and nf.nf(call["recv"]) in ("self", "&self", "&mut self")):
+            out.add(("src", "field of a receiver other than self in " + short(w["id"] if "id" in w else "wrapper")))
+        else:
+            out.add(r)
+    return slicer.normalise(out)
+
+
+def seed_sites_resolved(facts, fn):
+    """[(node, short seeding callee, roots(ai))]: the direct seeding calls of fn and its calls to seeding wrappers"""
+    sl = slicer_of(fn, control=True)
+    out = []
+    for n in user_nodes(fn):
+        if n["k"] not in ("Call", "MethodCall"):
+            continue
+        if is_call_named(n, *SEED_FNS):
+            cs = short(n.get("callee") or (hirq.show(n["f"]) if n["k"] == "Call" else n["name"]))
+            out.append((n, cs, (lambda ai, n=n: sl.roots(n["args"][ai])), len(n["args"])))
+        else:
+            wr = seed_wrapper(facts, n.get("callee"))
+            if wr:
+                inner = wr[1]
+                cs = short(inner.get("callee") or (hirq.show(inner["f"]) if inner["k"] == "Call" else inner["name"]))
+                out.append((n, cs, (lambda ai, n=n, wr=wr: _wrapper_roots(facts, fn, n, wr, ai)), len(inner["args"])))
+    return out
+
+
 def check_seeds(ctx, facts, rule, table):
     """table: {fn id: [ {callee: short name, arg: index, allowed: [...], required: [...]} ... ]}
     Every seeding site of a tabled function must match a row (in order of appearance per callee)."""
     n_sites = 0
     for fid, rows in table.items():
         fn = facts.fn(fid)
-        sl = slicer_of(fn, control=True)
-        sites = seed_sites(fn)
+        sites = seed_sites_resolved(facts, fn)
         used = [0] * len(rows)
-        for s in sites:
-            cs = short(s.get("callee") or (hirq.show(s["f"]) if s["k"] == "Call" else s["name"]))
+        for (s, cs, rootsf, nargs) in sites:
             row = None
             for i, r in enumerate(rows):
                 if r["callee"] == cs and (used[i] == 0 or r.get("multi")):
@@ -126,16 +193,16 @@ def check_seeds(ctx, facts, rule, table):
             if row is None:
                 ctx.violation(rule, fid, "untabled seeding call %s" % cs, hirq.loc(s),
                               "a generator/hasher is seeded here by %s but the rule table has no row for it; its seed roots are {%s}"
-                              % (cs, ", ".join(sorted(slicer.show_root(r) for a in s["args"] for r in sl.roots(a)))))
+                              % (cs, ", ".join(sorted(slicer.show_root(r) for a in range(nargs) for r in rootsf(a)))))
                 continue
             for ai in row.get("args", [0]):
-                if ai >= len(s["args"]):
+                if ai >= nargs:
                     continue
                 n_sites += 1
                 allowed = row["allowed"][ai] if isinstance(row["allowed"], dict) else row["allowed"]
                 required = row.get("required", [])
                 required = required.get(ai, []) if isinstance(required, dict) else required
-                check_roots(ctx, rule, fid, "seed of %s (arg %d)" % (cs, ai), hirq.loc(s), sl.roots(s["args"][ai]),
+                check_roots(ctx, rule, fid, "seed of %s (arg %d)" % (cs, ai), hirq.loc(s), rootsf(ai),
                             allowed, required)
         for i, r in enumerate(rows):
             if used[i] == 0 and not r.get("optional"):
